@@ -8,7 +8,7 @@ const res = [];
 isa.instructions.forEach(i => {
   res.push({
     name: i.name, arch: i.arch, encoding: i.encoding, prefix: i.prefix, op: i.opcodeString, opv: i.opcodeValue,
-    tt: i.tupleType, lead: i.consecutiveLead, alias: i.aliasOf,
+    ext: Object.keys(i.ext || {}), tt: i.tupleType, lead: i.consecutiveLead, alias: i.aliasOf,
     ops: i.operands.map(o => ({ s: o.toString(), reg: o.reg, mem: o.mem, imm: o.imm, rel: o.rel, implicit: !!o.implicit, regType: o.regType, memSize: o.memSize, rwx: o.rwxIndex }))
   });
 });
